@@ -54,6 +54,7 @@ type Engine struct {
 	curFuel      int
 	usedLemmas   map[string]bool
 	liftDone     map[string]bool // lifted lemmas whose obligations were generated in this run
+	orphans      map[string]string // contracts whose function no longer exists
 }
 
 type globalInfo struct {
@@ -82,7 +83,7 @@ func NewEngineOverlay(repo string, overlay map[string][]byte) (*Engine, error) {
 		globalSeen: map[string]bool{}, strs: map[string]Term{}, fls: map[string]Term{}, fns: map[string]Term{}, fnObjs: map[string]*types.Func{},
 		addrs: map[types.Object]Term{}, heapElemSort: map[string]string{}, usedSpecs: map[string]bool{}, notes: map[string][]string{},
 		trusted: map[string]bool{}, assumed: map[string]bool{}, globalInit: map[*types.Var]*globalInfo{}, globalConst: map[*types.Var]Term{},
-		specConsts: map[string]Term{}, realSpecMemo: map[string]bool{}, usedAxioms: map[string]string{}, recMemo: map[string]bool{}, extVars: map[string]int{}, usedLemmas: map[string]bool{}, liftDone: map[string]bool{}}
+		specConsts: map[string]Term{}, realSpecMemo: map[string]bool{}, usedAxioms: map[string]string{}, recMemo: map[string]bool{}, extVars: map[string]int{}, usedLemmas: map[string]bool{}, liftDone: map[string]bool{}, orphans: map[string]string{}}
 	e.fset = token.NewFileSet()
 	cfg := &packages.Config{
 		Mode: packages.NeedName | packages.NeedFiles | packages.NeedSyntax | packages.NeedTypes | packages.NeedTypesInfo | packages.NeedImports | packages.NeedDeps | packages.NeedModule,
@@ -177,7 +178,10 @@ func (e *Engine) LoadContracts() error {
 					return fmt.Errorf("duplicate contract for %s", key)
 				}
 				if _, ok := e.decls[key]; !ok {
-					return fmt.Errorf("%s:%d: contract for %s but no such function in the code (contract/code mismatch)", c.File, c.Line, key)
+					// reported by the checks that depend on this function (callers fail on "no contract"/"unknown callee",
+					// properties that name it or sweep its package report it); other properties are not affected
+					e.orphans[key] = fmt.Sprintf("%s:%d: contract for %s but no such function in the code (contract/code mismatch)", c.File, c.Line, key)
+					continue
 				}
 				e.contracts[key] = c
 			}
